@@ -193,7 +193,7 @@ def run_chunk(exe, reqs):
     res = []
     todo = list(reqs)
     while todo:
-        out, rc, err = vlib.run_lines(exe, todo, timeout=20 + 1.5 * len(todo), env=ENV)
+        out, rc, err = vlib.run_lines(exe, todo, timeout=15 + 1.0 * len(todo), env=ENV)
         blocks = split_blocks(out)
         ok = [b for b in blocks if complete(b)]
         for q, b in zip(todo, ok):
